@@ -266,7 +266,24 @@ impl Check for Deterministic {
         }
         // prefer sub-expressions that occur more than once
         cands.sort_by_key(|e| std::cmp::Reverse(cands_count(rhs, e)));
-        let target = cands[crate::engine::pick_idx(c.pick, cands.len().min(4))].clone();
+        let mut target = cands[crate::engine::pick_idx(c.pick, cands.len().min(4))].clone();
+        // half of the time, when there is one: an element of a list literal handed to an
+        // order-sensitive built-in (binding it first changes the order of allocation)
+        let items: Vec<&E> = cands
+            .iter()
+            .filter_map(|e| match e {
+                E::Call(f, args) if matches!(&**f, E::BuiltIn(n) if ["sort", "sort_by", "unique", "reverse", "max", "min"].contains(&n.as_str())) => match args.first() {
+                    Some(E::List(items)) => Some(items.iter().filter(|i| i.size() > 1 && !has_assign(i) && !matches!(i, E::Spread(_))).collect::<Vec<&E>>()),
+                    _ => None,
+                },
+                _ => None,
+            })
+            .flatten()
+            .collect();
+        if !items.is_empty() && c.pick % 2 == 0 {
+            target = items[(c.pick as usize / 2) % items.len()].clone();
+            ctx.label("let-abstraction:list-item-of-ordering-call");
+        }
         ctx.label("let-abstraction");
         let replaced = replace_all(rhs, &target, &E::Id("tq".into()));
         let variant = run_variant(&[format!("tq = {}", print_min(&target)), format!("{} = {}", name, print_min(&replaced))]);
